@@ -53,6 +53,7 @@ TABLE = {
             {"driver": "timers", "required_clauses": ["timer-fire", "dispatch-owed", "wait-request", "wait-slept", "callback-legitimacy"]},
             {"driver": "batch", "required_clauses": ["timer-fire"]},
             {"driver": "faults", "required_clauses": ["dispatch-end", "failed-registration-call"]},
+            {"driver": "wakeup", "required_clauses": ["far-timer-silent"], "opts": {"quick": {"preempt": 100}, "thorough": {"preempt": 100}}, "shards": 1},
         ],
     },
     "C12": {
@@ -106,6 +107,7 @@ TABLE = {
         "drivers": [
             {"driver": "reentrancy", "required_clauses": ["callback-legitimacy", "idle-from-callback", "dispatch-owed", "executor-destroyed", "blocking-mode-restored", "timer-fire"]},
             {"driver": "crash-probe", "required_clauses": ["destructor-reentrancy"], "shards": 1, "replayable": False},
+            {"driver": "pairs", "required_clauses": ["callback-legitimacy", "dispatch-owed", "timer-fire"]},
             {"driver": "idle", "required_clauses": ["idle-run"]},
             {"driver": "idle-burst", "required_clauses": ["idle-burst"], "shards": 1, "replayable": False},
             {"driver": "lifecycle", "required_clauses": ["lifecycle"]},
@@ -153,6 +155,7 @@ TABLE = {
             {"driver": "removal", "required_clauses": ["epoll-table"]},
             {"driver": "postaction", "required_clauses": ["post-action"]},
             {"driver": "crash-probe", "required_clauses": ["destructor-reentrancy"], "shards": 1, "replayable": False},
+            {"driver": "async-io", "required_clauses": ["release"]},
         ],
     },
     "C10": {
